@@ -36,7 +36,7 @@ ASSUMPTIONS = [
 
 def budget(tier):
     if tier == "quick":
-        return {"shards": 16, "examples": 1500, "wall": 150}
+        return {"shards": 16, "examples": 1100, "wall": 150}
     return {"shards": 16, "examples": 40000, "wall": 1500}
 
 
@@ -83,6 +83,28 @@ def _e2e_case(draw):
                      comment_quotes=True, comment_backslash=False, p_http=0.3, p_sig=0.2, p_routing=0.0, p_paged=0.1, p_lro=0.1, p_stream=0.1)
     api = draw(S.apis(prof))
     return {"k": "e2e", "api": api, "options": {"params": ["autogen-snippets=False"], "transport": "grpc", "snippets": False}}
+
+
+# coverage-guided stage (atheris/libFuzzer through Hypothesis' fuzz_one_input): the cheap sub-cases only
+FUZZ_MODULES = ("gapic.utils.lines", "gapic.utils.rst", "gapic.generator.formatter")
+
+
+def fuzz_strategy(worker=0):
+    # one sub-case kind per worker (coverage feedback otherwise settles on the cheapest kind)
+    return [_wrap_case(), _rst_case(), _fix_case(), _doc_case()][worker % 4]
+
+
+def extra_stage(tier, seed, rec):
+    import sys
+    from harness import fuzz_stage
+    fuzz_stage.stage(sys.modules[__name__], tier, seed, rec, _FUZZ_INFO)
+
+
+_FUZZ_INFO = {}
+
+
+def evidence_extra(rec, tier):
+    return {"coverage_guided_stage": dict(_FUZZ_INFO)}
 
 
 def strategy(tier):
